@@ -197,3 +197,38 @@ Proof.
 Qed.
 
 End AsyncProofs.
+
+(* ---- termination: every interleaving of the two processes is finite ---- *)
+Section AsyncTermination.
+Variable exec : dstate -> cmd -> dstate * option errc.
+
+Definition boss_weight (b : bmode) : nat :=
+  match b with BRun todo => 3 * length todo + 4 | BWait => 1 | BOk => 0 | BFail => 0 end.
+Definition ameasure (s : asys) : nat := boss_weight (a_boss s) + 2 * length (a_queue s) + length (a_inbox s).
+
+Lemma err_reply_len e : length (err_reply e) <= 1.
+Proof. destruct e; cbn; lia. Qed.
+
+Theorem astep_decreases s s' : Async.astep exec s s' -> ameasure s' < ameasure s.
+Proof.
+  intros H. destruct H; unfold ameasure; cbn [a_boss a_queue a_inbox boss_weight length]; rewrite ?app_length; cbn [length];
+    try (pose proof (err_reply_len (snd (exec d c)))); lia.
+Qed.
+
+(* a path of n steps *)
+Inductive apath : nat -> asys -> asys -> Prop :=
+| ap_nil s : apath 0 s s
+| ap_cons n s s' s'' : Async.astep exec s s' -> apath n s' s'' -> apath (S n) s s''.
+
+Theorem async_bounded n s s' : apath n s s' -> n + ameasure s' <= ameasure s.
+Proof.
+  induction 1 as [s|n s s1 s2 Hst Hp IH]; [lia|]. pose proof (astep_decreases s s1 Hst). lia.
+Qed.
+
+(* from the initial state no execution has more than 3 * (number of steps of the plan) + 4 transitions *)
+Corollary async_terminates d0 steps n s : apath n (ainit d0 steps) s -> n <= 3 * length steps + 4.
+Proof.
+  intros H. pose proof (async_bounded n _ _ H) as Hb. unfold ameasure, ainit in Hb. cbn [a_boss a_queue a_inbox boss_weight length] in Hb. lia.
+Qed.
+
+End AsyncTermination.
